@@ -224,7 +224,13 @@ pub fn parse_bounds_list(s: &str) -> Result<Vec<BoundOrFiller>> {
         while let Some((idx, w0)) = iter.next() {
             let w1 = iter.peek().unwrap_or(&(0, 'x')).1;
 
-            if w0 == w1 && (w0 == '{' || w0 == '}') {
+            // Inside a bound an odd run of '}' is the closing brace followed
+            // by escaped ones, e.g. `{1}}}` is field 1 and a literal '}'
+            let closes_bound = inside_bound
+                && w0 == '}'
+                && s[idx..].chars().take_while(|&c| c == '}').count() % 2 == 1;
+
+            if w0 == w1 && (w0 == '{' || w0 == '}') && !closes_bound {
                 // escaped bracket, ignore it, we will replace it later
                 iter.next();
             } else if w0 == '}' && !inside_bound {
